@@ -1,37 +1,38 @@
 #!/bin/bash
 # E5 campaign for one property (thorough tier only): coverage-guided byte fuzzing of the E2
-# interpreter under AddressSanitizer.  usage: run.sh <PROP> <runs> <seed>
+# interpreter under AddressSanitizer.  usage: run.sh <PROP> <runs> <seed> [target]   (target: fz_chan (default) | fz_policy)
 # exit 0 = nothing found, 1 = violation (line VIOLATION ... printed), 2 = infrastructure
 set -u
-PROP=$1; RUNS=$2; SEED=${3:-1}
+PROP=$1; RUNS=$2; SEED=${3:-1}; TGT=${4:-fz_chan}
 cd /verif/harness/fuzz || exit 2
 export CARGO_NET_OFFLINE=true CARGO_TARGET_DIR=/verif/target/fuzz
-CORPUS=/verif/target/fuzz-corpus/fz_chan-$PROP-$SEED
+CORPUS=/verif/target/fuzz-corpus/$TGT-$PROP-$SEED
 rm -rf "$CORPUS"; mkdir -p "$CORPUS" /verif/target/fuzz-artifacts /verif/evidence/parts
-cargo +nightly fuzz build --fuzz-dir . fz_chan > /verif/target/build-fuzz.log 2>&1 || { echo "fuzz build failed:"; tail -20 /verif/target/build-fuzz.log; exit 2; }
+cargo +nightly fuzz build --fuzz-dir . $TGT > /verif/target/build-fuzz.log 2>&1 || { echo "fuzz build failed:"; tail -20 /verif/target/build-fuzz.log; exit 2; }
 START=$(date +%s)
 [ "$SEED" = "0" ] && SEED=1
-OUT=$(cargo +nightly fuzz run --fuzz-dir . fz_chan "$CORPUS" -- -runs=$RUNS -seed=$SEED -len_control=0 -max_len=360 -artifact_prefix=/verif/target/fuzz-artifacts/ 2>&1)
+OUT=$(cargo +nightly fuzz run --fuzz-dir . $TGT "$CORPUS" -- -runs=$RUNS -seed=$SEED -len_control=0 -max_len=360 -artifact_prefix=/verif/target/fuzz-artifacts/ 2>&1)
 RC=$?
 END=$(date +%s)
 VIOL=$(echo "$OUT" | grep '^VIOLATION property=' | head -1)
+SIGL=$(echo "$OUT" | grep -B1 '^VIOLATION property=' | head -1)
 CRASH=$(echo "$OUT" | grep -o 'Test unit written to [^ ]*' | head -1 | awk '{print $5}')
 DONE=$(echo "$OUT" | grep -o 'Done [0-9]* runs' | awk '{print $2}')
-python3 - "$PROP" "$SEED" "$CORPUS" "${DONE:-0}" "$((END-START))" "$RC" <<'PY'
+python3 - "$PROP" "$SEED" "$CORPUS" "${DONE:-0}" "$((END-START))" "$RC" "$TGT" <<'PY'
 import sys, os, json, glob
-prop, seed, corpus, done, wall, rc = sys.argv[1], int(sys.argv[2]), sys.argv[3], int(sys.argv[4]), int(sys.argv[5]), int(sys.argv[6])
+prop, seed, corpus, done, wall, rc, tgt = sys.argv[1], int(sys.argv[2]), sys.argv[3], int(sys.argv[4]), int(sys.argv[5]), int(sys.argv[6]), sys.argv[7]
 files = sorted(glob.glob(corpus + "/*"))
 samples = [{"corpus_input_hex": open(f, "rb").read()[:64].hex()} for f in files[:3]]
 ev = {"property_id": prop, "tier": "thorough", "seed": seed, "level": "exploration",
       "coverage": {"evaluations": max(done, 1), "distinct_nontrivial": len(files),
-                   "rule": "libFuzzer (coverage-guided, ASan) over byte strings decoded into E2 scenarios; distinct non-trivial = inputs retained in the corpus because they reached new coverage of the interpreter + channel code",
-                   "samples": samples or [{"corpus_input_hex": ""}], "engine": "E5 cargo-fuzz fz_chan", "classes": {"corpus_files": len(files)}},
+                   "rule": "libFuzzer (coverage-guided, ASan) over byte strings decoded into the scenarios of the proptest engines (fz_chan: E2 async histories, fz_policy: policy call histories); distinct non-trivial = inputs retained in the corpus because they reached new coverage of the interpreter + channel code",
+                   "samples": samples or [{"corpus_input_hex": ""}], "engine": "E5 cargo-fuzz " + tgt, "classes": {"corpus_files": len(files)}},
       "assumptions": ["campaigns are pinned only approximately by -seed; the saved failing input is the reproducible unit"],
       "wall_s": wall, "violations": 0 if rc == 0 else 1}
 json.dump(ev, open(f"/verif/evidence/parts/{prop}-fuzz.json", "w"), indent=1)
 PY
 if [ $RC -eq 0 ]; then echo "[$PROP fuzz] runs=${DONE:-?} corpus=$(ls "$CORPUS" | wc -l) no crash"; exit 0; fi
-if [ -n "$VIOL" ]; then echo "$VIOL"; exit 1; fi
+if [ -n "$VIOL" ]; then echo "$SIGL"; echo "$VIOL"; exit 1; fi
 if [ -n "$CRASH" ]; then
   # a sanitizer / panic crash without an oracle verdict: keep the input as the replay
   mkdir -p /verif/replays/$PROP; cp "$CRASH" /verif/replays/$PROP/fuzz-crash-$(basename "$CRASH").bin
